@@ -239,7 +239,11 @@ def eval_faults(rac):
                 continue
             # the failing task's target and everything downstream of it must be untouched by this update
             fn.armed = False
-            exec(trig, loc)
+            try:
+                exec(trig, loc)
+            except Exception as ex:     # noqa
+                rac.fail(key, f"C18 {key}: repeating the assignment once the fault is gone raised {type(ex).__name__}: {ex}", scr, "Manager.set_value")
+                continue
             # independent re-evaluation
             val = dict(d)
             a, z = val["a"], val["z"]
